@@ -31,9 +31,12 @@ def main():
     except Exception:
         traceback.print_exc()
         chk.fail("ENGINE", "internal-error", "rule module raised: %s" % traceback.format_exc()[-600:])
-    if tier == "thorough" and hasattr(mod, "thorough"):
+    if tier == "thorough":
         try:
-            mod.thorough(W, chk)
+            import thorough
+            thorough.run(pid, W, chk)
+            if hasattr(mod, "thorough"):
+                mod.thorough(W, chk)
         except Exception:
             traceback.print_exc()
             chk.fail("ENGINE", "internal-error-thorough", traceback.format_exc()[-600:])
